@@ -7,7 +7,9 @@ from vlib import Check, VERIF, REPO
 
 META = {
     "engine": "E1+E2+E3+E4",
-    "text": "Coq theorems over an interleaving model of ConcurrentExecutionQueue (execute / signal_push_event / "
+    "text": "Coq theorems over an interleaving model of ConcurrentExecutionQueue (both execute overloads - execute(T&&) and "
+            "execute(const T&), each taking its ring ticket as the regenerated CONCURRENT template flag of its "
+            "_queue.push<...> call says: one atomic fetch_add, or load + store as two steps - / signal_push_event / "
             "start_consumer / consume_until_empty incl. the _queue.size() test / join at atomic-operation granularity, "
             "inner bounded queue as a ticketed FIFO whose push is ticket-then-publish and whose try_pop_n pops only the "
             "published prefix, exactly as in bounded_queue.hpp), for every client program, every number of producers, "
@@ -39,7 +41,10 @@ META = {
             "of 'as long as the executor accepts the launch'.  Fixed defect (f78c0c5, was signature ticket-gap): the "
             "consumer used to give up its role when try_pop_n stopped at a taken-but-unpublished ticket; a recurrence is "
             "reported by the covered/join monitors as a violation and re-opens c16_never_stranded (translator target "
-            "keep_role_while_tickets_out).  The structure of the roll-back in start_consumer (CAS retry loop) is read by the "
+            "keep_role_while_tickets_out).  Both execute overloads must push with CONCURRENT=true (c16_tickets_atomic; targets "
+            "execute_move_push_concurrent / execute_copy_push_concurrent): with false the model takes the ticket in two "
+            "steps, the proofs re-open and the explorer exhibits the duplicate ticket (model-lost-item / model-stuck).  "
+            "The structure of the roll-back in start_consumer (CAS retry loop) is read by the "
             "model from the regenerated site table: replacing it (e.g. by a fetch_sub) re-opens g_rb_kind.  Exactly-once relies on C01 (the inner queue delivers each ticket's value to "
             "the pop of that ticket).  Trusted: Coq kernel; translator; extraction + OCaml explorer; macro shim and "
             "dsched (sequentially consistent interleavings; memory orders are checked as obligations on the "
@@ -53,6 +58,9 @@ FIXED_SMALL = [
     (4, "I", "10", "E|E,J"), (4, "A", "11", "E,S,S,J"), (4, "A", "101", "E,E|S,J"), (1, "A", "-", "E,E,J|E"),
     (1, "I", "-", "E,E|E,J"), (2, "A", "-", "E,E,E|J"), (4, "A", "01", "E,J|E,J"), (4, "I", "1", "E,E,J"),
     (4, "A", "-", "E,J|E,J"), (4, "I", "-", "E,J|E,J"),
+    # concurrent producers through the copying overload execute(const T&), alone and mixed with execute(T&&)
+    (4, "A", "-", "C,J|C"), (4, "I", "-", "C|C|J"), (2, "A", "-", "C,C|E,J"), (1, "A", "-", "C|E|C"),
+    (4, "A", "-", "C,C,J|C,C"), (4, "I", "1", "C,S,J|C"),
 ]
 
 
@@ -65,11 +73,12 @@ def gen_program(rng, small):
         ops = []
         for _ in range(n):
             r = rng.below(10)
-            ops.append("E" if r < 6 else ("J" if r < 9 else "S"))
+            # both public overloads: E = execute(T&&), C = execute(const T&)
+            ops.append(("E" if rng.chance(1, 2) else "C") if r < 6 else ("J" if r < 9 else "S"))
         threads.append(ops)
-    if not any(o == "E" for th in threads for o in th):
-        threads[0][0] = "E"
-    ne = sum(1 for th in threads for o in th if o == "E")
+    if not any(o in "EC" for th in threads for o in th):
+        threads[0][0] = "C"
+    ne = sum(1 for th in threads for o in th if o in "EC")
     mode = rng.choice(["A", "I"])
     if rng.chance(1, 3):
         nf = 1 + rng.below(3)
@@ -166,6 +175,13 @@ def main(argv):
             rep = {"level": "model", "cap": p[1], "mode": p[2], "faults": p[3], "program": p[4]}
             if int(f.get("maxinside", "0")) > 1:
                 chk.violate("model-single", "the model admits two consumers inside the consume function: %s" % l[:200], rep)
+            nexec = sum(1 for ch in p[4] if ch in "EC")
+            lost = [o for o in outs if not o.endswith("STUCK") and o.endswith("stale=0") and
+                    len([x for x in o.split(" del=")[1].split(" ")[0].split(",") if x]) != nexec]
+            if lost:
+                chk.violate("model-lost-item", "the model admits a finished execution in which an item passed to execute() "
+                            "is never delivered (or delivered twice) although no launch was refused at the end: %s [%s]"
+                            % (lost[0], p[4]), rep)
             if p[3] == "-" and any(o.endswith("STUCK") for o in outs):
                 chk.violate("model-stuck", "the model admits an execution that never finishes without any refused "
                             "launch: %s" % l[:300], rep)
@@ -215,8 +231,8 @@ def main(argv):
     chk.cov["states"] = states
     chk.cov["transitions"] = trans
     chk.cov["rule"] = ("case = (client program, capacity, executor mode, fault list, schedule seed, strategy); programs are "
-                       "18 fixed boundary programs (join racing a slower producer, refused launch + recovery signal, "
-                       "capacity 1) plus seeded random mixes of execute / join / signal_push_event over 2-5 threads, "
+                       "24 fixed boundary programs (join racing a slower producer, refused launch + recovery signal, "
+                       "capacity 1, concurrent producers through execute(const T&) alone and mixed with execute(T&&)) plus seeded random mixes of execute(T&&) / execute(const T&) / join / signal_push_event over 2-5 threads, "
                        "capacities 1-8, inline and asynchronous executors, fault lists of length 0-3; strategies: uniform "
                        "random, round-robin with random pre-emptions, PCT depth 3 (twice); every third schedule with a consume "
                        "function that sleeps longer than join()'s polling period; distinct non-trivial = distinct "
